@@ -11,7 +11,8 @@ def extra(ctx):
     s1, m1 = sc.trap_schedules(ctx, "Client_trap4.cfg", ["TrapFourthTry"], [0], mode="bfs", module="MCClient", compiler=cc.schedule_from_states, extra_cfg="CONSTRAINT FocusFourth")
     s2, m2 = sc.trap_schedules(ctx, "Client_trap4.cfg", ["TrapCloseAfterReply"], [0], mode="bfs", module="MCClient", compiler=cc.schedule_from_states)
     s3, m3 = sc.trap_schedules(ctx, "Client_trap4x.cfg", ["TrapRxClosedBeforeCancel"], [0], mode="bfs", module="MCClient", compiler=cc.schedule_from_states)
-    return s1 + s2 + s3, m1 + m2 + m3
+    s4, m4 = sc.trap_schedules(ctx, "Client_trap4b.cfg", ["TrapFourthTryAfterSuccess"], [0], mode="bfs", module="MCClient", compiler=cc.schedule_from_states, extra_cfg="CONSTRAINT FocusAfterSuccess")
+    return s1 + s2 + s3 + s4, m1 + m2 + m3 + m4
 
 
 def run(ctx):
